@@ -1,12 +1,8 @@
 """Scenarios of spec/mc/MC_AppScen.tla: generate with TLC, concretise, run the real command, compare,
 and validate the recorded probe events against spec/trace/Trace_App.tla."""
-import hashlib
-import io
 import json
 import os
 import shutil
-import sys
-import tempfile
 
 from . import faults, impl, tlc
 from .ctx import Machinery
@@ -22,7 +18,14 @@ CONTENT = {
     "terr": b"# Title\n\nSome FAULT-PARSER text.\n",
     "undec": b"# Title\n\nSome \xff\xfe text.\n",
 }
-FIXED = {"fixable": b"# Title\n\nSome text.\n"}
+CONTENT["fixtok"] = b"#  Title\n\nSome text.\n"                        # MD019: token-level fix, file is re-parsed
+CONTENT["fix2"] = b"# Title\n\nSome text.   \n\n\n\nMore.\n"        # MD009 (level 0) then MD012 (level 1): two write-backs
+FIXED = {"fixable": b"# Title\n\nSome text.  \n", "fixtok": b"# Title\n\nSome text.\n",
+         "fix2": b"# Title\n\nSome text.  \n\nMore.\n"}   # MD009: 3 trailing spaces -> 2 (br_spaces)
+
+
+# complete results of earlier passes (one write-back per fix level)
+STAGES = {"fix2": (b"# Title\n\nSome text.  \n\n\n\nMore.\n",)}
 
 
 def generate(cfg):
@@ -73,87 +76,29 @@ def argv_of(sc, names):
     return a + tail
 
 
-def snapshot(d):
-    out = {}
-    for root, _dirs, files in os.walk(d):
-        for f in files:
-            p = os.path.join(root, f)
-            with open(p, "rb") as fh:
-                out[os.path.relpath(p, d)] = hashlib.sha256(fh.read()).hexdigest()
-    return out
-
-
 def run_one(rec):
     """Execute one scenario record (as printed by TLC) against the real code. Returns observation dict."""
+    from . import runs
     sc = rec["sc"]
-    faults.install_parser_fault()
-    faults.reset_counters()
-    work = tempfile.mkdtemp(prefix="vhs-", dir="/dev/shm" if os.path.isdir("/dev/shm") else None)
-    tmpd = os.path.join(work, "_tmp")
-    os.mkdir(tmpd)
-    os.mkdir(os.path.join(work, "empty"))
-    os.mkdir(os.path.join(work, "some"))
-    with open(os.path.join(work, "some", "x.md"), "wb") as f:
-        f.write(CONTENT["clean"])
-    names = []
-    stdin = None
     kinds = sc["kinds"]
+    files = []
+    stdin = None
     if sc["cmd"] == "stdin":
         stdin = CONTENT[kinds[0]]
     else:
-        for i, kd in enumerate(kinds):
-            n = "f%d.md" % (i + 1)
-            names.append(n)
-            with open(os.path.join(work, n), "wb") as f:
-                f.write(CONTENT[kd])
-    before = snapshot(work)
-    old_tmp = tempfile.tempdir
-    tempfile.tempdir = tmpd
-    old_env = os.environ.get("TMPDIR")
-    os.environ["TMPDIR"] = tmpd
-    try:
-        a = argv_of(sc, names)
-        sin = None
-        if stdin is not None:
-            sin = io.TextIOWrapper(io.BytesIO(stdin), encoding="utf-8")
-        res = _run_cli_stdin(a, work, sin)
-    finally:
-        tempfile.tempdir = old_tmp
-        if old_env is None:
-            os.environ.pop("TMPDIR", None)
-        else:
-            os.environ["TMPDIR"] = old_env
-    after = snapshot(work)
-    left = sorted(k for k in after if k.startswith("_tmp" + os.sep))
-    changed = sorted(k for k in before if after.get(k) != before[k])
-    created = sorted(k for k in after if k not in before and not k.startswith("_tmp" + os.sep))
-    contents = {}
-    for n in names:
-        p = os.path.join(work, n)
-        if os.path.exists(p):
-            with open(p, "rb") as f:
-                contents[n] = f.read()
-    shutil.rmtree(work, ignore_errors=True)
-    obs = {"argv": a, "code": res.code, "exc": res.exc, "out": res.out, "err": res.err, "events": res.events,
-           "left": left, "changed": changed, "created": created, "names": names,
-           "contents": {k: v.decode("latin-1") for k, v in contents.items()}}
+        files = [("f%d.md" % (i + 1), CONTENT[kd]) for i, kd in enumerate(kinds)]
+    files_all = files + [("some/x.md", CONTENT["clean"])]
+    obs = runs.execute(files_all, argv_of(sc, [n for n, _ in files]), stdin_bytes=stdin, dirs=("empty",))
+    obs["names"] = [n for n, _ in files]
+    obs["contents"] = {k: v.decode("latin-1") for k, v in obs["contents"].items() if k != "some/x.md"}
     return obs
 
 
-def _run_cli_stdin(a, work, sin):
-    if sin is None:
-        return impl.run_cli(a, cwd=work)
-    old = sys.stdin
-    sys.stdin = sin
-    try:
-        # run_cli replaces sys.stdin only when given text; keep ours
-        return impl.run_cli(a, cwd=work, stdin=None)
-    finally:
-        sys.stdin = old
-
-
-def compare(rec, obs):
-    """Spec outcome vs observation -> list of (property, signature, detail)."""
+def compare(rec, obs, base=None, failing=None, how=""):
+    """Spec outcome vs observation -> list of (property, signature, detail).
+    base: concrete content kinds per file when they differ from the scenario's abstract kinds (fault
+    enumeration: the scenario says 'perr' at the position whose real document is base[i]);
+    failing: 1-based index of the file the fault hit; how: fault description for signatures."""
     sc = rec["sc"]
     bad = []
     tag = "%s/%s/%s/coe=%s/%s" % (sc["cmd"], sc["sel"], sc["cfg"], "T" if sc["coe"] else "F", ",".join(sc["kinds"]))
@@ -186,22 +131,37 @@ def compare(rec, obs):
         bad.append(("C10", "announced:%s:expected=%s:observed=%s" % (sc["cmd"], _kk(ann_exp, kinds), _kk(ann_obs, kinds)),
                     {"scenario": sc, "argv": obs["argv"], "expected": ann_exp, "observed": ann_obs}))
     ch_exp = sorted("f%d.md" % i for i in rec["changed"])
-    if obs["changed"] != ch_exp:
+    ch_obs = [n for n in obs["changed"] if failing is None or n != "f%d.md" % failing]
+    if ch_obs != ch_exp:
         bad.append(("C10", "changed:%s:expected=%s:observed=%s" % (sc["cmd"], _kk(ch_exp, kinds), _kk(obs["changed"], kinds)),
                     {"scenario": sc, "argv": obs["argv"], "expected": ch_exp, "observed": obs["changed"]}))
     if obs["created"]:
         bad.append(("C10", "created-file:%s" % sc["cmd"], {"scenario": sc, "argv": obs["argv"], "created": obs["created"]}))
     for n, data in obs["contents"].items():
-        kd = kinds[int(n[1:-3]) - 1]
+        idx = int(n[1:-3])
+        kd = (base or kinds)[idx - 1]
+        raw = data.encode("latin-1") if isinstance(data, str) else data
+        if failing == idx:
+            # the file the fault hit: untouched or completely fixed, never anything else
+            if raw != CONTENT[kd] and raw != FIXED.get(kd, CONTENT[kd]):
+                what = "failing-file-intermediate-pass-result" if raw in STAGES.get(kd, ()) else "failing-file-half-written"
+                bad.append(("C15", "%s:%s:%s:%s" % (what, sc["cmd"], kd, how),
+                            {"scenario": sc, "file": n, "content": data, "argv": obs["argv"]}))
+            continue
         want = FIXED.get(kd) if n in ch_exp else CONTENT[kd]
-        if want is not None and data.encode("latin-1") != want:
-            bad.append(("C10", "content:%s:%s" % (sc["cmd"], kd), {"scenario": sc, "file": n, "content": data}))
+        if want is not None and raw != want:
+            bad.append(("C10" if base is None else "C15", "content:%s:%s" % (sc["cmd"], kd), {"scenario": sc, "file": n, "content": data}))
     # --- temp files (C15 / C10)
     if obs["left"]:
         fault = [k for k in kinds if k in ("perr", "perrl", "terr", "undec")]
-        prop = "C15" if fault else "C10"
-        bad.append((prop, "temp-left:%s:%s:coe=%s" % (sc["cmd"], "+".join(sorted(set(fault))) or "-", "T" if sc["coe"] else "F"),
-                    {"scenario": sc, "argv": obs["argv"], "left": obs["left"]}))
+        leak = _leaking_kinds(obs, kinds)
+        if leak:
+            fault = leak
+        props = (["C15"] if fault else []) + (["C10"] if (not fault or sc["cmd"] != "fix") else [])
+        for prop in props:
+            bad.append((prop, "temp-left:%s:%s:coe=%s%s" % (sc["cmd"], "+".join(sorted(set(fault))) or "-", "T" if sc["coe"] else "F",
+                                                            (":" + how) if how else ""),
+                        {"scenario": sc, "argv": obs["argv"], "left": obs["left"]}))
     # --- visited files: exactly those the model visits, in order (C13/C15 continue / stop)
     begun = [e["file"] for e in obs["events"] if e["ev"] == "file_begin" and e["file"] != "(stdin)"]
     vis_exp = ["f%d.md" % i for i in sorted(rec["visited"])] if sc["cmd"] in ("scan", "fix") else []
@@ -226,6 +186,24 @@ def compare(rec, obs):
     return bad
 
 
+def _leaking_kinds(obs, kinds):
+    """kinds of the files during whose processing a temporary file was created and never deleted"""
+    live, cur, out = {}, None, []
+    for e in obs["events"]:
+        if e["ev"] == "file_begin":
+            cur = e["file"]
+        elif e["ev"] == "tmp_new":
+            live[e["tmp"]] = cur
+        elif e["ev"] == "tmp_del":
+            live.pop(e["tmp"], None)
+    for f in live.values():
+        try:
+            out.append(kinds[int(f[1:-3]) - 1])
+        except (ValueError, IndexError, TypeError):
+            out.append("stdin" if f == "(stdin)" else "?")
+    return sorted(set(out))
+
+
 def _kk(namelist, kinds):
     out = []
     for n in namelist:
@@ -242,7 +220,7 @@ KEEP = {"file_begin", "failure", "level_begin", "tmp_new", "tmp_del", "writeback
         "pass_end", "level_end", "scan_error", "announce", "file_end", "exit", "parse_end"}
 
 
-def trace_of(argv_mode, scheme, coe, events, code, file_rank):
+def trace_of(argv_mode, scheme, coe, events, code, file_rank, disk=None):
     """Frame the recorded probe events as a Trace_App trace.
     argv_mode: 'scan'|'fix'|'stdin'|'other' (from the command line), scheme: scheme the command line asks for
     (argument beats configuration), file_rank: name -> position in sorted order."""
@@ -293,6 +271,9 @@ def trace_of(argv_mode, scheme, coe, events, code, file_rank):
         elif ev == "exit":
             tr.append({"ev": ev, "category": e["category"], "scheme": e["scheme"], "code": e["code"]})
     tr.append({"ev": "proc_exit", "code": code if isinstance(code, int) else -1})
+    if disk is not None:
+        changed, extra = disk
+        tr.append({"ev": "disk", "changed": sorted(rank(n) for n in changed), "extra": int(extra)})
     return tr
 
 
